@@ -186,6 +186,18 @@ func (x *Explorer) push(d Decision) {
 }
 
 var debugBranches = os.Getenv("ZSX_DEBUG_BRANCHES") != ""
+var paranoidMode = os.Getenv("ZSX_PARANOID") != ""
+
+// paranoid (self-test mode): everything the interval filter decides is re-decided by the solver.
+func (x *Explorer) paranoid(opposite *term.Term, what string) {
+	if !paranoidMode {
+		return
+	}
+	if r, _ := x.In.S.Check(opposite, false, false); r == solve.Sat {
+		x.incomplete("FILTER UNSOUND: " + what + ": " + truncate(opposite.String(), 200))
+		fmt.Fprintf(os.Stderr, "zsx: FILTER UNSOUND: %s: %s\n", what, truncate(opposite.String(), 300))
+	}
+}
 
 // tick counts a non-assume decision (new or replayed) and enforces shard ownership at the shard depth.
 func (x *Explorer) tick() {
@@ -233,9 +245,11 @@ func (x *Explorer) branchSym(c *term.Term, label string) bool {
 	switch x.env.Tri(c) {
 	case 1:
 		x.Filtered++
+		x.paranoid(x.st().Not(c), "filter said always true")
 		return true
 	case 0:
 		x.Filtered++
+		x.paranoid(c, "filter said always false")
 		return false
 	}
 	if x.pos < len(x.Decs) {
@@ -313,6 +327,7 @@ func (x *Explorer) concretize(t *term.Term, what string) uint64 {
 		if t.W > 0 {
 			if r := x.env.Of(t); r.Lo == r.Hi {
 				x.Filtered++
+				x.paranoid(x.st().Not(x.st().Eq(t, x.st().BV(t.W, r.Lo))), "filter said single value")
 				return r.Lo
 			}
 		}
